@@ -1139,16 +1139,21 @@ func (app *App) ErrorHandler(ctx Ctx, err error) error {
 		mountedPrefixParts int
 	)
 
+	path := ctx.Path()
 	for prefix, subApp := range app.mountFields.appList {
-		if prefix != "" && strings.HasPrefix(ctx.Path(), prefix) {
-			parts := len(strings.Split(prefix, "/"))
-			if mountedPrefixParts <= parts {
-				if subApp.configured.ErrorHandler != nil {
-					mountedErrHandler = subApp.config.ErrorHandler
-				}
-
-				mountedPrefixParts = parts
-			}
+		// only sub-apps that configured their own handler compete
+		if prefix == "" || subApp.configured.ErrorHandler == nil || !strings.HasPrefix(path, prefix) {
+			continue
+		}
+		// the prefix has to end on a segment boundary of the path
+		if len(path) > len(prefix) && prefix[len(prefix)-1] != '/' && path[len(prefix)] != '/' {
+			continue
+		}
+		// innermost = longest prefix; distinct prefixes of one path differ in length,
+		// so the choice does not depend on the iteration order of the map
+		if len(prefix) > mountedPrefixParts {
+			mountedErrHandler = subApp.config.ErrorHandler
+			mountedPrefixParts = len(prefix)
 		}
 	}
 
